@@ -502,18 +502,23 @@ def diff_snapshots(a, b):
     return ch
 
 
-ERR_RE = re.compile(r"^([A-Za-z_][A-Za-z0-9_.]*(?:Error|Exception|Exit|Interrupt))\b:? ?(.*)$")
+ERR_RE = re.compile(r"^([A-Za-z_][A-Za-z0-9_.]*)(?:: ?(.*))?$")
 
 
 def err_summary(stderr, stdout=""):
-    """last exception line of the traceback (class, message) + whether argparse rejected the command line"""
+    """exception line that ends the last traceback (class, message) + whether argparse rejected the command line"""
     cls, msg = None, None
-    for line in stderr.splitlines():
-        m = ERR_RE.match(line.strip())
-        if m and not line.startswith(" "):
-            cls, msg = m.group(1).split(".")[-1], m.group(2)[:300]
+    lines = stderr.splitlines()
+    for i, line in enumerate(lines):
+        if line.startswith("Traceback (most recent call last):"):
+            for l2 in lines[i + 1:]:
+                if l2 and not l2.startswith((" ", "\t")):
+                    m = ERR_RE.match(l2.strip())
+                    if m:
+                        cls, msg = m.group(1).split(".")[-1], (m.group(2) or "")[:300]
+                    break
     usage = "usage:" in stderr
-    errs = [l[7:][:300] for l in stderr.splitlines() if l.startswith("ERROR: ")]
+    errs = [l[7:][:300] for l in lines if l.startswith("ERROR: ")]
     return {"cls": cls, "msg": msg, "usage": usage, "errors": errs[:3], "stdout": stdout[:200]}
 
 
